@@ -85,18 +85,38 @@ theorem incremental_action_eq_rebuilt (E : Rio.Router.Env) {ruleOf : Rio.Router.
 
 /-! ### Non-vacuity -/
 
-/-- The canonical projection satisfies the bridge hypothesis; on W2's concrete C01 example (two
-rules, one request) both insertion orders give the same action. -/
+/-- effects per route id: `r1` carries 301, `r2` carries 302 (conflicting), same rank -/
+private def exEffects (id : String) : Rule :=
+  { id := [], rank := 0, statusCode := if id == "r1" then some 301 else some 302, target := none,
+    responseStatusCodes := none, excludeResponseStatusCodes := none, sampling := none,
+    headerFilters := none, bodyFilters := none, logOverride := none, reset := none, stop := none,
+    redirectUnitId := none, configurationLogUnitId := none, targetHash := none }
+
+private def exHost : Rio.Router.Route :=
+  { id := "r1", priority := 0, scheme := none, host := some (.static "a.com"), ips := none,
+    methods := none, excludeMethods := none, headers := [], datetime := none, time := none,
+    weekdays := none, path := .static "/a" }
+
+private def exOther : Rio.Router.Route := { exHost with id := "r2", priority := -1, methods := some ["GET"] }
+
+private def exReq : Rio.Router.Req :=
+  { scheme := none, host := some "a.com", method := none, headers := [], ip := none, createdAt := none,
+    path := "/a" }
+
+/-- The canonical projection satisfies the bridge hypothesis; two host-bound rules with CONFLICTING
+status codes both match the request; both insertion orders give the same, non-empty action — the
+status of the rule applied last in (rank desc, id desc) order, i.e. of `r1` (rank 0 < rank 1). -/
 example :
-    let ruleOf := handlerOfRoute (fun _ => default)
+    let ruleOf := handlerOfRoute exEffects
     HandlerOf ruleOf ∧
-    liveAction Rio.C01.exEnv ruleOf (Rio.Router.Router.build Rio.C01.exEnv [Rio.C01.exR2, Rio.C01.exR1])
-        Rio.C01.exQ ⟨none, none⟩ (fun _ => 1) =
-      liveAction Rio.C01.exEnv ruleOf (Rio.Router.Router.build Rio.C01.exEnv [Rio.C01.exR1, Rio.C01.exR2])
-        Rio.C01.exQ ⟨none, none⟩ (fun _ => 1) := by
+    liveAction Rio.C01.exEnv ruleOf (Rio.Router.Router.build Rio.C01.exEnv [exOther, exHost]) exReq
+        ⟨none, none⟩ (fun _ => 1) =
+      liveAction Rio.C01.exEnv ruleOf (Rio.Router.Router.build Rio.C01.exEnv [exHost, exOther]) exReq
+        ⟨none, none⟩ (fun _ => 1) ∧
+    ((Rio.Router.Router.build Rio.C01.exEnv [exHost, exOther]).matchReq Rio.C01.exEnv exReq).length = 2 := by
   intro ruleOf
-  refine ⟨handlerOfRoute_ok _, ?_⟩
+  refine ⟨handlerOfRoute_ok _, ?_, by decide⟩
   exact router_order_invariant _ (handlerOfRoute_ok _) _ _ (List.Perm.swap _ _ _)
-    (by simp [Rio.Router.NodupIds, Rio.C01.exR1, Rio.C01.exR2]) _ _ _
+    (by simp [Rio.Router.NodupIds, exHost, exOther]) _ _ _
 
 end Rio.C11
